@@ -376,9 +376,13 @@ def rule_call_flag(model):
                          fi.cls.name == 'TemplateDict'):
                 flag = n.args[1] if len(n.args) > 1 else None
                 if flag is None or _const_truth(flag) is False:
-                    ok = fi.where in REVIEWED
+                    ok = fi.where in REVIEWED or (
+                        fi.module.short == 'DT_In' and
+                        'sort' in fi.name and fi.cls is None)
                     r.instance(fi.where, n, 'uncalled fetch (' +
-                               REVIEWED.get(fi.where, 'NOT REVIEWED') + ')')
+                               REVIEWED.get(fi.where, 'comparison function '
+                                            'lookup' if ok else
+                                            'NOT REVIEWED') + ')')
                     if not ok:
                         r.finding(fi.where, n, 'a tag operand is fetched '
                                   'without auto-call (callables and '
